@@ -27,6 +27,7 @@ func main() {
 	replay := flag.String("replay", "", "replay a file")
 	merge := flag.String("merge", "", "comma separated hash files: print distinct count")
 	minS := flag.Float64("minimize", 15, "minimisation budget (s)")
+	specF := flag.String("spec", "", "development: use this property's engines, report -prop's rules")
 	flag.Parse()
 	sruntime.Disabled = true
 	debug.SetGCPercent(200)
@@ -73,6 +74,6 @@ func main() {
 		}
 	}
 	st := zz.RunWorker(&zz.WorkerOpts{Prop: *prop, Tier: *tier, Seed: *seed, Worker: *worker, NWorkers: *nworkers,
-		Budget: time.Duration(*budget * float64(time.Second)), OutDir: *out, ReplayDir: *replays, Known: kf, MinimizeS: *minS})
+		Budget: time.Duration(*budget * float64(time.Second)), OutDir: *out, ReplayDir: *replays, Known: kf, MinimizeS: *minS, Spec: *specF})
 	fmt.Printf("worker %d: runs=%d nontrivial=%d violations=%d known=%d\n", *worker, st.Runs, st.NonTrivial, len(st.Violations), len(st.Known))
 }
